@@ -26,6 +26,7 @@ type pathWalker struct {
 	onStore  func(fn *ssa.Function, st *ssa.Store, s string) string
 	onIf     func(fn *ssa.Function, cond ssa.Value, s string) (string, string)
 	onReturn func(ret *ssa.Return, s string)
+	onInstr  func(fn *ssa.Function, in ssa.Instruction, s string) string
 	decided  map[ssa.Value]bool
 	env      map[*ssa.Phi]bool
 	npaths   int
@@ -113,6 +114,9 @@ func (w *pathWalker) block(fn *ssa.Function, b, prev *ssa.BasicBlock, start int,
 		}
 	}()
 	for i := start; i < len(b.Instrs); i++ {
+		if w.onInstr != nil {
+			s = w.onInstr(fn, b.Instrs[i], s)
+		}
 		switch x := b.Instrs[i].(type) {
 		case *ssa.Store:
 			if w.onStore != nil {
